@@ -12,6 +12,7 @@ import (
 	"fmt"
 	"reflect"
 	"runtime"
+	"runtime/debug"
 	"strings"
 	"sync"
 	"sync/atomic"
@@ -45,6 +46,51 @@ func (slowPool) Reset(any) {
 var slowOnce sync.Once
 
 func decodeOnce(tree *decoder.Tree, j *Job, ctx *decoder.Ctx) soloResult {
+	r, _ := decodeOnceEnv(tree, j, ctx)
+	return r
+}
+
+// scribble overwrites, in place, every byte of every []byte reachable from v:
+// what the owner of a destination is entitled to do with its own data.
+func scribble(v reflect.Value) {
+	switch v.Kind() {
+	case reflect.Ptr, reflect.Interface:
+		if !v.IsNil() {
+			scribble(v.Elem())
+		}
+	case reflect.Struct:
+		for i := 0; i < v.NumField(); i++ {
+			scribble(v.Field(i))
+		}
+	case reflect.Slice:
+		if v.Type().Elem().Kind() == reflect.Uint8 {
+			if v.Len() > 0 {
+				// a []byte that aliases a Go string constant of the harness (a
+				// source such as st.Id, a static variable) lies in read-only
+				// memory: it is shared with that goroutine's own source, not
+				// with the tree, and is left alone
+				func() {
+					defer debug.SetPanicOnFault(debug.SetPanicOnFault(true))
+					defer func() { _ = recover() }()
+					b := v.Bytes()
+					for i := range b {
+						b[i] = '#'
+					}
+				}()
+			}
+			return
+		}
+		for i := 0; i < v.Len(); i++ {
+			scribble(v.Index(i))
+		}
+	case reflect.Map:
+		for _, k := range v.MapKeys() {
+			scribble(v.MapIndex(k))
+		}
+	}
+}
+
+func decodeOnceEnv(tree *decoder.Tree, j *Job, ctx *decoder.Ctx) (soloResult, *env) {
 	registerUserFuncs()
 	slowOnce.Do(func() { _ = decoder.RegisterPool("slow", slowPool{}) })
 	e := newEnv()
@@ -76,7 +122,7 @@ func decodeOnce(tree *decoder.Tree, j *Job, ctx *decoder.Ctx) soloResult {
 	for _, ob := range e.objs() {
 		r.Fields = append(r.Fields, ob.flatten())
 	}
-	return r
+	return r, e
 }
 
 func init() {
@@ -101,6 +147,20 @@ func init() {
 		if err != nil {
 			return nil, err
 		}
+		// every way a literal of the program text can reach a []byte destination
+		// (the destination must own its bytes, see the scribble oracle below)
+		for _, p := range []string{
+			"obj.Name = \"literal\"\nts.B = 'other'\n",
+			"obj.Name = jso.t|ifThen(\"yes\")\n",
+			"obj.Name = jso.fl|ifThenElse(\"yes\", \"nope\")\nts.B = jso.t|ifThenElse(\"yes\", \"nope\")\n",
+			"obj.Name = jso.nul|default(\"dflt\")\n",
+			"obj.Name = ident(\"arg\")\nobj.Finance.History[0].Comment = jso.missing|default('c')\n",
+			"if jso.t == true {\nobj.Name = \"inner\"\n}\nfor i := 0; i < 2; i++ {\nts.B = \"loop\"\n}\n",
+			"switch jso.s {\ncase \"Hello\":\nobj.Name = \"matched\"\ndefault:\nobj.Name = \"dflt\"\n}\n",
+		} {
+			d := genDoc(newPRNG(cfg.seed))
+			pending = append(pending, Job{Prog: p, doc: d.doc, Fail: -1})
+		}
 		// the concurrent phase
 		rng := newPRNG(cfg.seed + 10)
 		for pi := range pending {
@@ -113,7 +173,23 @@ func init() {
 				continue
 			}
 			before := serNodes(decoder.VerifDumpTree(tree))
-			solo := decodeOnce(tree, &j, decoder.NewCtx())
+			solo, soloEnv := decodeOnceEnv(tree, &j, decoder.NewCtx())
+			// the destination belongs to its owner: editing its bytes in place
+			// afterwards must not reach the shared tree or any other decode
+			func() {
+				defer func() { _ = recover() }()
+				scribble(reflect.ValueOf(soloEnv.obj))
+				scribble(reflect.ValueOf(soloEnv.st))
+				scribble(reflect.ValueOf(soloEnv.ts))
+			}()
+			if mid := serNodes(decoder.VerifDumpTree(tree)); mid != before && len(sum.OracleFails) < 5 {
+				sum.OracleFails = append(sum.OracleFails, OracleFail{What: "a destination filled by a decode shares memory with the shared tree: overwriting the destination's own bytes in place changed the tree every other goroutine decodes through", Input: singleJob("shared", j), Expect: "tree dump unchanged", Got: "tree dump changed"})
+				continue
+			}
+			if again := decodeOnce(tree, &j, decoder.NewCtx()); !reflect.DeepEqual(again, solo) && len(sum.OracleFails) < 5 {
+				sum.OracleFails = append(sum.OracleFails, OracleFail{What: "a decode through the shared tree after another owner overwrote its own destination bytes differs from the solo decode", Input: singleJob("shared", j), Expect: solo, Got: again})
+				continue
+			}
 			n := pick(rng, gs)
 			var wg sync.WaitGroup
 			var bad atomic.Value
